@@ -116,7 +116,8 @@ AddQ(a, b) ==
     LET L == Max2(a.d, b.d) IN
     IF MulOK(a.n, L \div a.d) /\ MulOK(b.n, L \div b.d)
     THEN LET x == a.n * (L \div a.d)  y == b.n * (L \div b.d) IN
-         IF Abs(x) <= Bound /\ Abs(y) <= Bound THEN MkQ(x + y, L) ELSE AnyFinite
+         \* (strictly below the bound: 2^30 + 2^30 would leave TLC's 32-bit integers)
+         IF Abs(x) < Bound /\ Abs(y) < Bound THEN MkQ(x + y, L) ELSE AnyFinite
     ELSE AnyFinite
 \* arithmetic with an operand outside the exact domain: some number, possibly non-finite, or null
 \* when the host arithmetic overflows (A5)
